@@ -96,8 +96,45 @@ func (t *T) guarded(api, pred, where string, ins []named, f func() error) outcom
 	}
 	if o.err != nil {
 		t.c.Count("errors_observed", 1)
+		if strings.Contains(where, "fresh") {
+			t.c.Count("baseline_error:"+api, 1)
+		}
 	}
 	return o
+}
+
+// independent: the output of a call must not share storage with an argument (a later write into the
+// output object would modify the argument): the output is overwritten (every residue, the metadata
+// replaced by other values) and the arguments are snapshotted before / after. Call it once the value of
+// the output has been taken.
+func (t *T) independent(api, where string, out *rlwe.Ciphertext, ins []named) {
+	if out == nil {
+		return
+	}
+	before := make([]snapshot, len(ins))
+	for i := range ins {
+		before[i] = snap(ins[i].obj)
+	}
+	for i := range out.Value {
+		for j := range out.Value[i].Coeffs {
+			row := out.Value[i].Coeffs[j]
+			for k := range row {
+				row[k] ^= 0x5A5A5A5A5A5A5A5A
+			}
+		}
+	}
+	if out.MetaData != nil {
+		out.Scale = rlwe.NewScale(12345)
+		out.IsNTT, out.IsMontgomery, out.IsBatched, out.IsBitReversed = !out.IsNTT, !out.IsMontgomery, !out.IsBatched, !out.IsBitReversed
+		out.LogDimensions.Rows, out.LogDimensions.Cols = out.LogDimensions.Rows+3, out.LogDimensions.Cols+5
+	}
+	for i := range ins {
+		t.c.Eval(1)
+		t.c.Count("output_independence_checks", 1)
+		if d := before[i].diff(snap(ins[i].obj)); d != "" {
+			t.c.Violate("C09|"+api+"|output-shares-storage|"+ins[i].name, fmt.Sprintf("%s [%s]: the output object shares storage with argument %s: overwriting the output after the call changed the argument: %s", where, t.tag, ins[i].name, d), nil)
+		}
+	}
 }
 
 // same judges an output against the reference value.
@@ -123,6 +160,24 @@ type scheme[E any] struct {
 	// dirty returns an output object that previously held a degree-2 value at the maximum level
 	// with other metadata.
 	dirty func(r *eng.Rand, deg int) *rlwe.Ciphertext
+	// derived lists the other ways of obtaining an evaluator than the constructor (ShallowCopy /
+	// WithKey of an evaluator that was used and whose buffers hold residue): an operation run on
+	// such an evaluator must give the result of the run on a freshly constructed one.
+	derived []derivedEval[E]
+}
+
+type derivedEval[E any] struct {
+	name string // shallowcopy | withkey | withkey-parent
+	mk   func(p *poisoner) E
+}
+
+// dirtyLow returns a reused output object (residue in every row, other metadata) of the given degree
+// whose level is lvl (below the level of the operands): the level of the output object takes part in
+// the level of the result, its previous content must not.
+func dirtyLow[E any](s *scheme[E], r *eng.Rand, deg, lvl int) *rlwe.Ciphertext {
+	ct := s.dirty(r, deg)
+	ct.Resize(deg, lvl)
+	return ct
 }
 
 type opnd struct {
@@ -130,6 +185,9 @@ type opnd struct {
 	class  string // ct | pt | scalar | vector
 	mk     func() rlwe.Operand
 	ptrish bool // pointer / slice argument (a mutation would be visible to the caller)
+	// sub names a boundary value of the kind (zero, one, minus-one, MinInt64, unreduced, short vector,
+	// sparse plaintext ...): it goes into the variant (distinct key, detail text), never into a signature.
+	sub string
 }
 
 func (o opnd) isCt() bool { return o.class == "ct" }
@@ -190,6 +248,7 @@ func runBinary[E any](t *T, s *scheme[E], row brow[E], variant string, a *rlwe.C
 		return
 	}
 	r0 := canonCt(s.rq, out)
+	t.independent(api, desc("fresh"), out, []named{{"op0", a1}, {"op1", b1}})
 
 	// ---- out == op0
 	{
@@ -345,6 +404,54 @@ func runBinary[E any](t *T, s *scheme[E], row brow[E], variant string, a *rlwe.C
 			t.same(api, "history-shrunk-out", "", desc("hist-shrunk"), r0, canonCt(s.rq, o2))
 		}
 	}
+	// ---- history: evaluator obtained through ShallowCopy / WithKey of a used evaluator
+	for _, d := range s.derived {
+		t.distinct(api, "hist-derived-"+d.name, b.kind, variant, true)
+		p := newPoisoner(rnd, 1)
+		var ev E
+		if !protect(func() error { ev = d.mk(p); return nil }).ok() {
+			t.c.Count("derived_evaluator_unavailable", 1)
+			continue
+		}
+		a2, b2 := copyCt(a), b.mk()
+		o2 := freshOut(b2)
+		o := protect(func() error { return row.call(ev, a2, b2, o2) })
+		if o.panicked {
+			t.c.Violate("C09|"+api+"|history-derived-"+d.name+"|panic|"+sigPred(pred), fmt.Sprintf("%s [%s]: panic on an evaluator obtained through %s of a used evaluator: %v at %s", desc("hist-derived-"+d.name), t.tag, d.name, o.pval, o.stack), nil)
+		} else if o.err != nil {
+			t.c.Violate("C09|"+api+"|history-derived-"+d.name+"|error|"+sigPred(pred), fmt.Sprintf("%s [%s]: error only on an evaluator obtained through %s of a used evaluator: %v", desc("hist-derived-"+d.name), t.tag, d.name, o.err), nil)
+		} else {
+			t.same(api, "history-derived-"+d.name, predS, desc("hist-derived-"+d.name), r0, canonCt(s.rq, o2))
+		}
+	}
+	// ---- history: reused output object whose level is BELOW the level of the operands (the level of the
+	// output takes part in the level of the result): reference = freshly allocated output of that level
+	if !row.accum {
+		model := freshOut(b.mk())
+		if low := model.Level() - 1; low >= 0 {
+			t.distinct(api, "hist-out-low", b.kind, variant, true)
+			ref := s.newCt(model.Degree(), low)
+			if protect(func() error { return row.call(s.newEval(), copyCt(a), b.mk(), ref) }).ok() {
+				rLow := canonCt(s.rq, ref)
+				t.c.Count("low_output_references", 1)
+				for _, dd := range []int{2, model.Degree()} {
+					a2, b2 := copyCt(a), b.mk()
+					o2 := dirtyLow(s, rnd, dd, low)
+					what := fmt.Sprintf("hist-out-low(deg %d, level-1)", dd)
+					o := protect(func() error { return row.call(s.newEval(), a2, b2, o2) })
+					if o.panicked {
+						t.c.Violate("C09|"+api+"|history-out-low|panic", fmt.Sprintf("%s [%s]: panic when the output object is a reused degree-%d object one level below the operands (a fresh output of that level is accepted): %v at %s", desc(what), t.tag, dd, o.pval, o.stack), nil)
+					} else if o.err == nil {
+						t.same(api, "history-out-low", "", desc(what), rLow, canonCt(s.rq, o2))
+					} else {
+						t.c.Count("dirty_out_rejected_by_error", 1)
+						continue
+					}
+					break
+				}
+			}
+		}
+	}
 }
 
 type urow[E any] struct {
@@ -379,6 +486,7 @@ func runUnary[E any](t *T, s *scheme[E], row urow[E], sub, lvlVariant string, a 
 		return
 	}
 	r0 := canonCt(s.rq, out)
+	t.independent(api, desc("fresh"), out, ins)
 	if !row.noAli {
 		t.distinct(api, "out=in", "ct", variant, true)
 		a2 := copyCt(a)
@@ -432,6 +540,50 @@ func runUnary[E any](t *T, s *scheme[E], row urow[E], sub, lvlVariant string, a 
 				continue
 			}
 			break
+		}
+	}
+	for _, d := range s.derived {
+		t.distinct(api, "hist-derived-"+d.name, "ct", variant, true)
+		p := newPoisoner(rnd, 1)
+		var ev E
+		if !protect(func() error { ev = d.mk(p); return nil }).ok() {
+			t.c.Count("derived_evaluator_unavailable", 1)
+			continue
+		}
+		a2 := copyCt(a)
+		o2 := freshOut()
+		o := protect(func() error { return row.call(ev, a2, o2) })
+		if o.panicked {
+			t.c.Violate(strings.TrimRight("C09|"+api+"|history-derived-"+d.name+"|panic|"+pred, "|"), fmt.Sprintf("%s [%s]: panic on an evaluator obtained through %s of a used evaluator: %v at %s", desc("hist-derived-"+d.name), t.tag, d.name, o.pval, o.stack), nil)
+		} else if o.err != nil {
+			t.c.Violate(strings.TrimRight("C09|"+api+"|history-derived-"+d.name+"|error|"+pred, "|"), fmt.Sprintf("%s [%s]: error only on an evaluator obtained through %s of a used evaluator: %v", desc("hist-derived-"+d.name), t.tag, d.name, o.err), nil)
+		} else {
+			t.same(api, "history-derived-"+d.name, pred, desc("hist-derived-"+d.name), r0, canonCt(s.rq, o2))
+		}
+	}
+	// reused output object one level below the level a fresh output gets
+	if model := freshOut(); model.Level()-1 >= 0 {
+		low := model.Level() - 1
+		t.distinct(api, "hist-out-low", "ct", variant, true)
+		ref := s.newCt(model.Degree(), low)
+		if protect(func() error { return row.call(s.newEval(), copyCt(a), ref) }).ok() {
+			rLow := canonCt(s.rq, ref)
+			t.c.Count("low_output_references", 1)
+			for _, dd := range []int{2, model.Degree()} {
+				a2 := copyCt(a)
+				o2 := dirtyLow(s, rnd, dd, low)
+				what := fmt.Sprintf("hist-out-low(deg %d, level-1)", dd)
+				o := protect(func() error { return row.call(s.newEval(), a2, o2) })
+				if o.panicked {
+					t.c.Violate("C09|"+api+"|history-out-low|panic", fmt.Sprintf("%s [%s]: panic when the output object is a reused degree-%d object one level below the fresh output (a fresh output of that level is accepted): %v at %s", desc(what), t.tag, dd, o.pval, o.stack), nil)
+				} else if o.err == nil {
+					t.same(api, "history-out-low", "", desc(what), rLow, canonCt(s.rq, o2))
+				} else {
+					t.c.Count("dirty_out_rejected_by_error", 1)
+					continue
+				}
+				break
+			}
 		}
 	}
 }
